@@ -10,7 +10,8 @@
 EXTENDS Cells
 NewObjectMethods == {"drop_na", "head", "tail", "sample", "replace_na", "sort", "unique", "rank", "concat",
                      "as_boolean", "as_bytes", "as_date", "as_datetime", "as_float", "as_integer", "as_object", "as_string",
-                     "map", "range", "tolist", "to_strings", "equal", "is_na", "copy"}
+                     "map", "range", "tolist", "to_strings", "equal", "is_na", "copy",
+                     "concat_none", "concat_empty", "empty_concat"}      \* concat without / with an empty operand
 Judge(e) ==
   IF e.m \notin NewObjectMethods THEN ""
   ELSE IF e.err # "" THEN ""                         \* an exception is not this property's business
